@@ -14,7 +14,12 @@ then writes `NEWLINE`.  What is modelled here, function by function:
 * serde's derived `Serialize for Message`: `serialize_struct` writes `{`, every `serialize_field`
   writes a `,` unless it is the first member, then the key as a JSON string, `:` and the value;
   `skip_serializing_if = "Option::is_none"` skips the member entirely; `end` writes `}`.
-* `ser_display` → `collect_str` → `serialize_str` of the `Display` text (time, message).
+* `ser_display` → `collect_str` of the `Display` value (time, message): serde_json's `collect_str`
+  writes the opening quote, then runs `write!(adapter, "{}", value)` where the adapter's `write_str`
+  calls `format_escaped_str_contents` ONCE PER PIECE the `Display` impl hands over (a
+  `fmt::Arguments` hands over every literal piece, every argument's own pieces, every padding
+  character separately), then the closing quote.  The message is therefore modelled as the list of
+  its pieces (`Record.pieces`, `jstrPieces`); its text (`Record.message`) is their concatenation.
 * `Level` serialises as the unit variant names `ERROR WARN INFO DEBUG TRACE`.
 * `Option<&str>` without `skip_serializing_if` (`thread`) serialises `None` as `null`.
 * `u32` / `usize` via `itoa`: plain decimal (`natDigits`).
@@ -49,12 +54,16 @@ def Level.ofNat? : Nat → Option Level
 /-- what the encoder reads from the `log::Record` -/
 structure Record where
   level : Level
-  message : List Char
+  /-- `record.args()` as the sequence of `write_str` pieces its `Display` produces -/
+  pieces : List (List Char)
   modulePath : Option (List Char)
   file : Option (List Char)
   line : Option Nat
   target : List Char
   deriving Repr
+
+/-- the message text: what `record.args().to_string()` is -/
+def Record.message (r : Record) : List Char := r.pieces.flatten
 
 /-- what the encoder reads from its surroundings -/
 structure Env where
@@ -93,6 +102,10 @@ def escape : List Char → List Char
 
 /-- `format_escaped_str`: `begin_string`, contents, `end_string` -/
 def jstr (s : List Char) : List Char := '"' :: escape s ++ ['"']
+
+/-- `collect_str`: `begin_string`, one `format_escaped_str_contents` per `write_str` piece,
+    `end_string` -/
+def jstrPieces (ps : List (List Char)) : List Char := '"' :: ps.flatMap escape ++ ['"']
 
 /-- `itoa` for unsigned integers: plain decimal, no sign, no leading zero -/
 def natDigits (n : Nat) : List Char :=
@@ -136,7 +149,7 @@ def optMember (key : List Char) (render : α → List Char) : Option α → List
 
 /-- the members of `Message` in declaration order -/
 def messageMembers (env : Env) (r : Record) : List (List Char) :=
-  [member kTime (jstr env.time), member kLevel (jstr r.level.name), member kMessage (jstr r.message)]
+  [member kTime (jstr env.time), member kLevel (jstr r.level.name), member kMessage (jstrPieces r.pieces)]
   ++ optMember kModulePath jstr r.modulePath
   ++ optMember kFile jstr r.file
   ++ optMember kLine natDigits r.line
